@@ -37,6 +37,9 @@ type Schema struct {
 	Unique   bool    `json:"unique,omitempty"`
 
 	Props        []Prop  `json:"props,omitempty"`
+	// ExtraRequired: names in `required` that this schema does not declare itself (an allOf member
+	// that requires a property another member declares).
+	ExtraRequired []string `json:"extra_required,omitempty"`
 	AddProps     *Schema `json:"add_props,omitempty"`      // additionalProperties: schema
 	AddPropsBool *bool   `json:"add_props_bool,omitempty"` // additionalProperties: true/false
 	MinProps     *int    `json:"min_props,omitempty"`
@@ -140,10 +143,15 @@ func (s *Schema) Render() map[string]any {
 			}
 		}
 		m["properties"] = props
+		req = append(req, s.ExtraRequired...)
 		if len(req) > 0 {
 			sort.Strings(req)
 			m["required"] = req
 		}
+	} else if len(s.ExtraRequired) > 0 {
+		req := append([]string{}, s.ExtraRequired...)
+		sort.Strings(req)
+		m["required"] = req
 	}
 	if s.AddProps != nil {
 		m["additionalProperties"] = s.AddProps.Render()
